@@ -83,6 +83,8 @@ def compilePushData (data : Bytes) : M Bytes :=
 canonical push of `sig_blob` (sections are `script[pc:new_pc]`, truncated by slicing at the end) -/
 def deleteSignature (script sigBlob : Bytes) : M Bytes := do
   let sub ← compilePushData sigBlob
+  -- `if len(sig_blob) == 1: subscript = b"\x01" + sig_blob` (by length alone, never OP_1..OP_16/OP_1NEGATE)
+  let sub := if sigBlob.length = 1 then 1 :: sigBlob else sub
   let spans ← opcodeSpans script script.length 0
   pure (spans.flatMap (fun (_, a, b) => let sec := slice script a b; if sec = sub then [] else sec))
 
